@@ -10,8 +10,9 @@ rsync -a --exclude .git /repo/ "$tmp/repo/"
 if ! (cd "$tmp/repo" && patch -p1 -s --no-backup-if-mismatch < "$d/patch.diff" >/dev/null 2>&1); then echo "$d: PATCH DOES NOT APPLY"; exit 2; fi
 (cd "$tmp/repo" && go build ./... 2>&1 | head -3)
 fired=""
+tier=quick; if [ -f "$d/meta.json" ] && jq -r '.demo_cmd // ""' "$d/meta.json" | grep -q "GOARCH=386"; then tier=thorough; fi
 for p in $props; do
-  out=$(/verif/bin/sfcheck -property $p -repo "$tmp/repo" -no-evidence 2>&1); rc=$?
+  out=$(/verif/bin/sfcheck -property $p -tier $tier -repo "$tmp/repo" -no-evidence 2>&1); rc=$?
   if [ $rc -ne 0 ]; then fired="$fired $p"; printf '%s\n' "$out" | grep -A1 "^VIOLATION" | grep -v "^VIOLATION\|^--" | cut -c1-260 | head -4; fi
 done
 echo "$d: fired:${fired:- NONE}"
